@@ -83,7 +83,7 @@ ExplainsOwn(e) ==
     IF WholeError(e.P)
     THEN /\ e.nimpl = 0 /\ e.nerr >= 1                     \* refused as a whole, with a message
          /\ (e.entry = "attr" /\ e.P.kind \in {"struct", "enum", "union", "other"} => e.item_present)
-    ELSE /\ e.classes = EntryClasses(e.P)
+    ELSE /\ e.classes = (IF "dump" \in DOMAIN e.P THEN EntryClassesD(e.P) ELSE EntryClasses(e.P))
          /\ (e.entry = "attr" => e.item_present)
 
 ExplainsOwnImpl(e) ==
